@@ -125,7 +125,6 @@ def install(it):
                 p.get = need_callable(f)
             else:
                 p.get = None
-            p._has_get = True
         if it.has_property(d, "set"):
             f = it.get(d, "set")
             if f is not UNDEF:
